@@ -71,6 +71,7 @@ func cmdCheck(args []string) int {
 	tier := fs.String("tier", "quick", "quick|thorough")
 	only := fs.String("job", "", "run only this job")
 	noReplay := fs.Bool("no-replay", false, "skip native replay")
+	conform := fs.Int("conform", -1, "reach witnesses replayed natively per job (translator conformance); default 1 quick, 3 thorough")
 	verbose := fs.Bool("v", false, "print every query")
 	if len(args) < 1 {
 		fmt.Println("usage: symgo check <property> [--tier ...]")
@@ -319,6 +320,39 @@ func cmdCheck(args []string) int {
 			problems = append(problems, k+" is never satisfiable (vacuous harness)")
 		}
 	}
+	// translator conformance: replay some reachability witnesses natively; the
+	// native run must hit the same label (engine and compiler agree on that path)
+	nconf := *conform
+	if nconf < 0 {
+		nconf = 1
+		if *tier == "thorough" {
+			nconf = 3
+		}
+	}
+	conformRun, conformOK := 0, 0
+	if !*noReplay && violations == 0 {
+		perJob := map[string]int{}
+		seenLabel := map[string]bool{}
+		for _, r := range all {
+			for _, q := range r.Queries {
+				if q.Kind != "reach" || q.Status != "sat" || perJob[r.Job] >= nconf || seenLabel[r.Job+q.Label] {
+					continue
+				}
+				// prefer witnesses deep in the harness: skip the first (pre-state) label when others exist
+				perJob[r.Job]++
+				seenLabel[r.Job+q.Label] = true
+				dir := filepath.Join(outDir, "replays", prop, "conform-"+sanitize(r.Job+"-"+paramStr(r.Params)+"-"+q.Label))
+				rr := nativeReplay(jobByName[r.Job], r.Params, q, dir)
+				conformRun++
+				if rr.Reproduced {
+					conformOK++
+					os.RemoveAll(dir)
+				} else {
+					problems = append(problems, fmt.Sprintf("%s[%s]: conformance: reach witness %q does not reproduce natively (%s), see %s", r.Job, paramStr(r.Params), q.Label, rr.Summary, dir))
+				}
+			}
+		}
+	}
 	var fl []FuncInfo
 	for _, f := range funcs {
 		fl = append(fl, f)
@@ -346,26 +380,28 @@ func cmdCheck(args []string) int {
 		"violations":  violations,
 		"assumptions": spec.Assumptions,
 		"coverage": map[string]interface{}{
-			"explanation":                spec.Explanation,
-			"obligations":                obligations,
-			"discharged":                 discharged,
-			"evaluations":                obligations + reachQ,
-			"distinct_nontrivial":        len(distinct),
-			"rule":                       "one evaluation = one SMT query (assertion, implicit panic condition, unwinding assertion or reachability witness) produced by symbolically executing the harness entry over the SSA of /repo's current source; distinct_nontrivial counts unsat obligations that differ in (job, label, source position, parameters) and were decided by an SMT solver rather than by the term simplifier",
-			"samples":                    samples,
-			"reach_queries":              reachQ,
-			"reach_witnessed":            reachSat,
-			"functions_encoded":          fl,
-			"stubs":                      spec.StubsDoc,
-			"bounds":                     bounds,
-			"outside_claim":              spec.Outside,
-			"solver_time_s":              solverSecs,
-			"solvers":                    sn,
-			"instances":                  len(all),
-			"package_load_s":             loadWall,
-			"replayed_natively":          replayed,
-			"inconclusive":               problems,
-			"inductive_invariant_broken": keys(invBroken),
+			"explanation":                    spec.Explanation,
+			"obligations":                    obligations,
+			"discharged":                     discharged,
+			"evaluations":                    obligations + reachQ,
+			"distinct_nontrivial":            len(distinct),
+			"rule":                           "one evaluation = one SMT query (assertion, implicit panic condition, unwinding assertion or reachability witness) produced by symbolically executing the harness entry over the SSA of /repo's current source; distinct_nontrivial counts unsat obligations that differ in (job, label, source position, parameters) and were decided by an SMT solver rather than by the term simplifier",
+			"samples":                        samples,
+			"reach_queries":                  reachQ,
+			"reach_witnessed":                reachSat,
+			"functions_encoded":              fl,
+			"stubs":                          spec.StubsDoc,
+			"bounds":                         bounds,
+			"outside_claim":                  spec.Outside,
+			"solver_time_s":                  solverSecs,
+			"solvers":                        sn,
+			"instances":                      len(all),
+			"package_load_s":                 loadWall,
+			"replayed_natively":              replayed,
+			"conformance_witnesses_replayed": conformRun,
+			"conformance_witnesses_agreeing": conformOK,
+			"inconclusive":                   problems,
+			"inductive_invariant_broken":     keys(invBroken),
 		},
 	}
 	os.MkdirAll(filepath.Join(outDir, "evidence"), 0755)
